@@ -13,7 +13,7 @@ CONSTANT Depth
 GenNext == Len(hist) < Depth /\ Next
 GenSpec == Init /\ [][GenNext]_vars
 
-GenInv == OnlyValidShares /\ ThresholdImpliesValidGroupSig /\ OneFaultTolerated /\ BeaconFollowsBlock
+GenInv == OnlyValidShares /\ ThresholdImpliesValidGroupSig /\ OneFaultTolerated /\ BeaconFollowsBlock /\ KeyTableGenuine
 
 Dump == (Len(hist) = Depth) => PrintT(<<"HIST", ToJson(hist)>>)
 =============================================================================
